@@ -164,10 +164,11 @@ PROPS['C17'] = {
              '(roles, parked awaiters, lost-race count).'),
     'min_nontrivial': [200, 2000],
     'require_classes': ['shared_future_mt:awaiters_parked_before_resolution', 'shared_future_mt:awaiters_lost_race_to_ready'],
-    'single_thread_scenarios': ('shared_future_history', 'shared_future_trivial_types'),
+    'single_thread_scenarios': ('shared_future_history', 'shared_future_trivial_types', 'shared_future_string_values'),
     'jobs': [
         J('hist_asan', 'c17.cpp', 'asan', [30000, 1500000], scenario='shared_future_history', threads=1),
         J('triv_asan', 'c17.cpp', 'asan', [30000, 1500000], scenario='shared_future_trivial_types', threads=1),
+        J('str_asan', 'c17.cpp', 'asan', [20000, 800000], scenario='shared_future_string_values', threads=1),
         J('mt_asan', 'c17.cpp', 'asan', [40000, 2000000], scenario='shared_future_mt'),
         J('mt_rel', 'c17.cpp', 'rel', [200000, 8000000], scenario='shared_future_mt'),
         J('mt_crel', 'c17.cpp', 'crel', [0, 3000000], scenario='shared_future_mt', tiers=(T,)),
@@ -193,12 +194,13 @@ PROPS['C01'] = {
     'rule': _FUT_RULE,
     'min_nontrivial': [200, 2000],
     'require_classes': ['future_mt:rounds_with_competing_resolvers', 'future_mt:winner_promise_destruction', 'future_mt:winner_drop', 'future_mt:winner_exception'],
-    'single_thread_scenarios': ('promise_history', 'promise_default_history'),
+    'single_thread_scenarios': ('promise_history', 'promise_default_history', 'future_string_values'),
     'jobs': [
         J('mt_rel', 'c01.cpp', 'rel', [400000, 20000000], scenario='future_mt', threads=6),
         J('pdef_asan', 'c01.cpp', 'asan', [60000, 2000000], scenario='promise_default_history', threads=1),
         J('mt_asan', 'c01.cpp', 'asan', [60000, 3000000], scenario='future_mt', threads=6),
         J('hist_asan', 'c01.cpp', 'asan', [80000, 4000000], scenario='promise_history', threads=1),
+        J('str_asan', 'c01.cpp', 'asan', [30000, 1000000], scenario='future_string_values', threads=1),
         J('mt_crel', 'c01.cpp', 'crel', [0, 10000000], scenario='future_mt', threads=6, tiers=(T,)),
         J('mt_casan', 'c01.cpp', 'casan', [0, 1500000], scenario='future_mt', threads=6, tiers=(T,)),
     ],
@@ -312,7 +314,7 @@ PROPS['C04'] = {
              'throwing level, finishing thread). Third scenario frame_owned_parties: the bound future / a callback awaiter / a thread blocked on the own result is kept alive only by the coroutine frame (argument), so delivery must precede frame destruction.'),
     'min_nontrivial': [150, 1000],
     'require_classes': ['async_start_race:coroutine_won_the_promise', 'async_start_race:competing_call_won_the_promise'],
-    'single_thread_scenarios': ('async_programs', 'frame_owned_parties', 'async_reference_results'),
+    'single_thread_scenarios': ('async_programs', 'frame_owned_parties', 'async_reference_results', 'async_string_results'),
     'jobs': [
         J('prog_asan', 'c04.cpp', 'asan', [40000, 2000000], scenario='async_programs', threads=1),
         J('prog_rel', 'c04.cpp', 'rel', [40000, 3000000], scenario='async_programs', threads=1),
@@ -324,6 +326,7 @@ PROPS['C04'] = {
         J('owned_rel', 'c04.cpp', 'rel', [3000, 300000], scenario='frame_owned_parties', threads=1),
         J('owned_casan', 'c04.cpp', 'casan', [0, 100000], scenario='frame_owned_parties', threads=1, tiers=(T,)),
         J('ref_asan', 'c04.cpp', 'asan', [3000, 200000], scenario='async_reference_results', threads=1),
+        J('str_asan', 'c04.cpp', 'asan', [20000, 800000], scenario='async_string_results', threads=1),
         J('ref_rel', 'c04.cpp', 'rel', [6000, 400000], scenario='async_reference_results', threads=1),
     ],
 }
@@ -393,9 +396,10 @@ PROPS['C16'] = {
              'distinct = distinct op trace (with configuration and modes) / (batch layout, close style, subscriber kinds, kick target).'),
     'min_nontrivial': [300, 3000],
     'require_classes': ['publisher_history:histories_copying_a_parked_subscriber', 'publisher_mt:rounds_with_stall_fired'],
-    'single_thread_scenarios': ('publisher_history',),
+    'single_thread_scenarios': ('publisher_history', 'publisher_string_values'),
     'jobs': [
         J('hist_asan', 'c16.cpp', 'asan', [40000, 2000000], scenario='publisher_history', threads=1),
+        J('str_asan', 'c16.cpp', 'asan', [20000, 800000], scenario='publisher_string_values', threads=1),
         J('mt_asan', 'c16.cpp', 'asan', [40000, 2000000], scenario='publisher_mt,publisher_two_publishers'),
         J('mt_rel', 'c16.cpp', 'rel', [150000, 8000000], scenario='publisher_mt,publisher_two_publishers'),
         J('mt_crel', 'c16.cpp', 'crel', [0, 3000000], scenario='publisher_mt', tiers=(T,)),
